@@ -226,6 +226,13 @@ def build_recipes(ctx, rnd, quick, cells, pars, strata, behs):
         rec.append({"kind": "cell", "cell": c, "as_float": i % 2})
     for (c, intended) in pars:
         rec.append({"kind": "par", "cell": c})
+    rec.append({"kind": "consts"})
+    # the corner where the dispersion terms of the water vapour weigh most: shortest carrier, hottest saturated air
+    for pc in (1, 2, 3):
+        for cc in (1, 2, 3, 4):
+            sp = spec_fv(rnd, 4, pc, 4, cc, 1)
+            sp["t"], sp["wl"] = 45.0, 0.4
+            rec.append(sp)
     # strata x samples
     per = {"rand": 1 if quick else 6, "va": 1 if quick else 6, "fv": 1 if quick else 5, "disp": 1 if quick else 6}
     for st in sorted(strata):
@@ -411,6 +418,14 @@ class Runner:
             out, exc = None, "NotAFiniteFloat"
         return [{"a": "Correct", "cell": c, "in": [enc(v) if v is not None else [0] for v in vals],
                  "ret": "ret" if not exc else "raise", "exct": exc}]
+
+    def consts(self, sp):
+        out, exc = self.call(self.sv.refractivity_constants)
+        try:
+            tab = [[repr(float(x)) for x in g] for g in out] if not exc else []
+        except Exception as ex:      # not a table of numbers: an observation, Trace_Survey says "shape"
+            tab = []
+        return [{"a": "Consts", "out": tab, "exc": exc}]
 
     def par(self, sp):
         sv = self.sv
